@@ -33,12 +33,19 @@ def run(tier, chk):
     n = common.run_vectors(chk, wd, "C18_Gen", workers=4, sig_of=sig, trace_module="C18_Trace", rec_sig_of=rec_sig)
     nr = common.run_random(chk, wd, "C18", "C18_Trace", 3000 if tier == "quick" else 40000, shards=1 if tier == "quick" else 4,
                            sig_of=lambda b: sig(b, b["out"]) if False else f"{b['fn']}:random")
+    # connection level (RFC 9297 2.1 "connection error of type H3_DATAGRAM_ERROR"): DatagramSender / DatagramReader of a real h3
+    # client and server over h3-quinn against a raw Quinn peer, judged by C18D_Trace with the same Datagram.tla operators
+    dg = common.gen_scenarios(chk, wd, "C18D_Gen", workers=2, label="dgen", cfg_text="SPECIFICATION Spec\nINVARIANT Emit\nCHECK_DEADLOCK FALSE\n")
+    common.run_sim(chk, wd, dg, "C18D_Trace", label="quinn", shards=4, runner="quinn",
+                   sig_of=lambda s, t, w: "c18:connection:" + ("panic" if any(e.get("ev") == "panic" for e in t) else "sending" if "what the peer read" in w else "receiving"))
     chk.exhaustive = True
-    chk.distinct_nontrivial = n + nr
+    chk.distinct_nontrivial = n + nr + len(dg)
     chk.rule = ("TLC enumerates quarter stream ids 0..65536 and every varint form boundary up to 2^60-1 x 5 payloads (and a 1500-byte payload "
                 "at the boundaries), all byte strings of length 0..2 and first-byte x tail patterns up to 9 bytes for decoding, and every "
                 "composition of advance() sizes over datagrams with payloads <= 3 bytes; expected values from Datagram.tla. Consumption runs and "
-                "seeded random datagrams are recorded from the real code and validated by C18_Trace.")
+                "seeded random datagrams are recorded from the real code and validated by C18_Trace. Connection level over real Quinn, both roles: 6 lists of sent datagrams "
+                "(ids at every varint form boundary, empty / 1000-byte payloads, a repeated datagram), every valid form of a received datagram (minimal and non-minimal), "
+                "9 invalid ones (empty, truncated in every form, quarter id 2^60 and above) alone and after valid ones; judged by C18D_Trace.")
     chk.assumptions = ["decode error code read from the Debug rendering of InternalConnectionError (its fields are crate-private)"]
 
 
